@@ -29,28 +29,33 @@ Proof. apply cR_init_gen. intros k. by rewrite !lookup_empty. Qed.
 Definition cnotif (kd : ckind) (id key v : bytes) : list val :=
   match kd with CNetmap => [] | CNeoFS => [VList [VBytes id; VBytes key; VBytes v]] end.
 
-(** One call: accepted exactly when the Alphabet signs and the platform's
-    key/value limits are met; it then writes exactly "config" ++ key. *)
+(** One call: accepted exactly when the Alphabet signs, the value is a byte
+    string (or, for Netmap, an Integer / Boolean, stored in canonical form)
+    and the platform's key/value limits are met; it then writes exactly
+    "config" ++ key. *)
 Lemma cstep_cases kd s alpha id key v :
   cstep kd s (CSet alpha id key v) =
-  if spec_caccept (CSet alpha id key v)
-  then (<[config_pfx ++ key := v]> s, VNull, cnotif kd id key v)
+  if spec_caccept kd (CSet alpha id key v)
+  then (<[config_pfx ++ key := spec_cval (CSet alpha id key v)]> s, VNull,
+        cnotif kd id key (spec_cval (CSet alpha id key v)))
   else (s, VFault, []).
 Proof.
-  unfold cstep, cexec, spec_caccept, sput, oassert. destruct alpha; cbn [obind andb]; [|reflexivity].
+  unfold cstep, cexec, spec_caccept, spec_cval, sput, oassert. destruct alpha; cbn [obind andb]; [|reflexivity].
+  destruct (val_bytes v) as [b|]; cbn [obind default]; [|by rewrite andb_false_r].
   rewrite app_length. change (length config_pfx) with 6%nat.
   destruct (Nat.leb_spec (6 + length key) 64), (Nat.leb_spec (length key) 58); try lia;
     cbn [andb obind]; [|reflexivity].
-  destruct (Z.of_nat (length v) <=? 65535)%Z; cbn [obind]; [|reflexivity]. by destruct kd.
+  destruct (Z.of_nat (length b) <=? 65535)%Z; cbn [obind andb]; [|reflexivity].
+  destruct kd; [reflexivity|]. by destruct (is_bytes v).
 Qed.
 
-Lemma cstep_R kd s m o : cR s m -> cR (fst (fst (cstep kd s o))) (spec_cstep m o).
+Lemma cstep_R kd s m o : cR s m -> cR (fst (fst (cstep kd s o))) (spec_cstep kd m o).
 Proof.
   intros H. destruct o as [alpha id key v]. rewrite cstep_cases. unfold spec_cstep.
-  destruct (spec_caccept _); cbn [fst]; [by apply cR_insert|exact H].
+  destruct (spec_caccept _ _); cbn [fst]; [by apply cR_insert|exact H].
 Qed.
 
-Lemma crun_R kd ops : forall s m, cR s m -> cR (crun kd s ops) (spec_crun m ops).
+Lemma crun_R kd ops : forall s m, cR s m -> cR (crun kd s ops) (spec_crun kd m ops).
 Proof.
   induction ops as [|o ops IH]; intros s m H; [exact H|]. unfold crun, spec_crun. cbn [fold_left].
   apply IH. by apply cstep_R.
@@ -71,7 +76,7 @@ Qed.
 
 Theorem config_exact kd init ops :
   let s := crun kd (cinit init) ops in
-  let m := spec_crun (spec_cinit init) ops in
+  let m := spec_crun kd (spec_cinit init) ops in
   (forall k, cget s k = m !! k) /\
   map fst (clist s) = skeys m /\
   (forall k v, (k, v) ∈ clist s <-> m !! k = Some v).
@@ -82,14 +87,15 @@ Qed.
 
 (** Last-write reading of the spec: the value of [k] is the value of the last
     accepted [SetConfig] under exactly [k], else the deployment value. *)
-Lemma spec_crun_snoc m0 ops o : spec_crun m0 (ops ++ [o]) = spec_cstep (spec_crun m0 ops) o.
+Lemma spec_crun_snoc kd m0 ops o : spec_crun kd m0 (ops ++ [o]) = spec_cstep kd (spec_crun kd m0 ops) o.
 Proof. unfold spec_crun. by rewrite fold_left_app. Qed.
 
-Lemma spec_crun_last m0 ops alpha id key v k :
-  spec_crun m0 (ops ++ [CSet alpha id key v]) !! k =
-  if spec_caccept (CSet alpha id key v) && bytes_eqb key k then Some v else spec_crun m0 ops !! k.
+Lemma spec_crun_last kd m0 ops alpha id key v k :
+  spec_crun kd m0 (ops ++ [CSet alpha id key v]) !! k =
+  if spec_caccept kd (CSet alpha id key v) && bytes_eqb key k
+  then Some (spec_cval (CSet alpha id key v)) else spec_crun kd m0 ops !! k.
 Proof.
-  rewrite spec_crun_snoc. unfold spec_cstep. destruct (spec_caccept _); cbn [andb]; [|reflexivity].
+  rewrite spec_crun_snoc. unfold spec_cstep. destruct (spec_caccept _ _); cbn [andb]; [|reflexivity].
   destruct (bytes_eqb key k) eqn:E.
   - apply bytes_eqb_eq in E as ->. by rewrite lookup_insert.
   - apply bytes_eqb_neq in E. by rewrite lookup_insert_ne.
